@@ -1,3 +1,4 @@
 pub mod matchers;
 pub mod store;
+pub mod views;
 pub mod util;
